@@ -167,6 +167,28 @@ func metaCallsIn(f *ssa.Function) []metaCall {
 				mc.keyArg = s
 			}
 		}
+		if mc.keyArg == "" {
+			// a key taken from a constant table (the call sits in a loop over {value, key} rows)
+			if pp := programOf(f); pp != nil {
+				expanded := false
+				for _, a := range cc.Args {
+					if typeStr(a.Type()) != "string" {
+						continue
+					}
+					if ss, ok := stringSet(pp, a); ok {
+						for _, s := range ss {
+							m2 := mc
+							m2.keyArg = s
+							out = append(out, m2)
+							expanded = true
+						}
+					}
+				}
+				if expanded {
+					continue
+				}
+			}
+		}
 		out = append(out, mc)
 	}
 	return out
